@@ -30,3 +30,17 @@ func debugOwnSites(w *World) {
 		fmt.Printf("%-14s %-34s ok=%-5v need=%d have=%-40s %s | %s\n", w.InstrPos(s.in), FuncName(s.fn), s.ok, s.need, s.have, s.what, s.via)
 	}
 }
+
+func debugAstFacts(w *World, fname, callee string) {
+	af := w.astFuncOf(modulePath, fname)
+	for _, c := range findCalls(af.decl.Body, callee) {
+		b, i := af.blockOf(c)
+		fmt.Printf("call at %s in block %v idx %d\n", w.Pos(c.Pos()), b, i)
+		for d := b; d != nil; d = af.idom[d] {
+			fmt.Printf("  chain block %d (%s) preds=%d succs=%d\n", d.Index, d.Kind, len(af.pred[d]), len(d.Succs))
+		}
+		for _, f := range af.factsAt(b) {
+			fmt.Println("   fact:", f)
+		}
+	}
+}
